@@ -433,7 +433,8 @@ class Check:
                            "items": [{"why": w, "case": p} for w, p in items[:20]]}, open(path, "w"), indent=1)
                 log(f"VIOLATION property={self.prop} replay={path}")
                 log(f"  class={cls} count={len(items)} first: {items[0][0][:400]}")
-        json.dump(ev, open(os.path.join(VERIF, "evidence", f"{self.prop}.json"), "w"), indent=1)
+        if not self.replay:  # a replay run re-examines recorded cases only; it is not evidence
+            json.dump(ev, open(os.path.join(VERIF, "evidence", f"{self.prop}.json"), "w"), indent=1)
         log(f"[done] {self.prop} tier={self.tier} violations={len(self.violations)} "
             f"known={len(self.known_hits)} wall={wall:.1f}s")
         return rc
